@@ -310,6 +310,16 @@ def explore(run, tier):
         cuts = range(len(data) + 1) if (thorough or len(data) < 80) else sorted(rng.sample(range(len(data) + 1), 25))
         for n in cuts:
             cases.append(dict(base, data=data[:n].hex(), mut='truncate'))
+        # surplus bytes after a message that parses cleanly (also bytes the codec cannot decode), and every flagged
+        # bit cleared in turn (that element's bytes are left over)
+        for tail in (b'\x00', b'\x20', b'\x40', b'\x80', b'\xff', b'\xe9\xe9', b'0', b'\xc3\xa9\x80'):
+            cases.append(dict(base, data=(data + tail).hex(), mut='extend'))
+        if not hexbm and len(data) >= 20:
+            bitmap = int.from_bytes(data[4:20], 'big')
+            for bit in range(2, 129):
+                if bitmap >> (128 - bit) & 1:
+                    cleared = (bitmap & ~(1 << (128 - bit))).to_bytes(16, 'big')
+                    cases.append(dict(base, data=(data[:4] + cleared + data[20:]).hex(), mut='clearbit'))
         for _ in range(12):
             o = rng.randrange(len(data) + 1)
             cases.append(dict(base, data=(data[:o] + bytes([rng.getrandbits(8)]) + data[o:]).hex(), mut='insert'))
